@@ -256,6 +256,24 @@ def rule_cm(ctx):
                                  construct=f"cm:{q}:jump in finally")
     if n < 4:
         ctx.floor_errors.append(f"rule=C14.CM: {n} __exit__/__aexit__ methods (floor 4)")
+    # a handler that can catch a cancellation (bare except, BaseException, CancelledError) re-raises - the one exception is the abort guard itself
+    guard = p.wrapper_of("worker")
+    for q, fn in p.functions.items():
+        if p.module_of.get(fn) not in ("server.py", "common.py", "pathio.py"):
+            continue
+        for h in walk_no_nested(fn):
+            if not isinstance(h, ast.ExceptHandler):
+                continue
+            names = ["BaseException"] if h.type is None else hnames(p, h)
+            if not any(x in ("BaseException", "CancelledError") for x in names):
+                continue
+            if fn is guard:
+                continue
+            ends = h.body and isinstance(h.body[-1], ast.Raise)
+            cond_raise = any(isinstance(x, ast.Raise) for s_ in h.body for x in walk_self(s_))
+            ctx.ob("C14.CM", h, f"{q}: `except {src(h.type) if h.type is not None else ''}` re-raises", bool(ends),
+                   f"{q}: the handler `except {src(h.type) if h.type is not None else ''}` catches cancellations and " + ("re-raises only on some paths" if cond_raise else "does not re-raise")
+                   + ": an ABOR / teardown that cancels the task at that point is swallowed and the code carries on as if nothing happened", construct=f"cm:{q}:swallows cancellation")
 
 
 RULES = [rule_outer, rule_abor, rule_done, rule_close, rule_exit, rule_shield, rule_cli, rule_last, rule_cm]
